@@ -68,7 +68,16 @@ func ruleChan(c *Ctx) {
 		}
 	}
 	// double close: each channel field is closed at one site, once
+	lifecycle := map[*types.Var]bool{}
+	for _, q := range []string{"rescache.Cache.inCh", "server.wsConn.work", "server.Service.stop", "nats.Client.mqCh"} {
+		if f := p.Field(q); f != nil {
+			lifecycle[f] = true
+		}
+	}
 	for _, f := range flds {
+		if !lifecycle[f] {
+			continue // other channels (request-local completion signals) are closed once per object by LIN rules
+		}
 		c.inst(1)
 		c.check(len(closes[f]) == 1, fieldOwner(p, f)+"."+f.Name(), "closed at a single site", p.InstrPos(closes[f][0].in), "one close", fmt.Sprintf("%d close sites", len(closes[f])))
 	}
@@ -434,6 +443,30 @@ func ruleRec(c *Ctx) {
 					key, why, ok = listed, w+" (with extracted helpers)", true
 					break
 				}
+			}
+		}
+		if !ok {
+			// a listed recursion that was moved into helpers: every member is owned by listed recursive functions
+			listed := map[string]bool{}
+			for l := range recTable {
+				for _, x := range strings.Split(l, " + ") {
+					listed[x] = true
+				}
+			}
+			all := true
+			owner := ""
+			for _, f := range comp {
+				if listed[fnName(f)] {
+					continue
+				}
+				o, owned := p.ownedByOutside(f, comp, func(nm string) bool { return listed[nm] })
+				if !owned {
+					all = false
+				}
+				owner = o
+			}
+			if all {
+				ok, why = true, "recursion of "+owner+" moved into a helper; guard checked by the rule of that function"
 			}
 		}
 		c.check(ok, key, "recursive cycle is a listed one with a checked termination guard", p.Pos(comp[0].Pos()), why, "a recursion that is not in the census: on cyclic resource graphs or repeated errors it may not terminate (stack overflow terminates the gateway)")
